@@ -22,6 +22,8 @@ def obj (j : Json) : P Obj := do
   | "dynamic" => pure (.obstacle .dyn (← getNat j "id"))
   | "env" => pure (.obstacle .env (← getNat j "id"))
   | "phantom" => pure (.obstacle .phan (← getNat j "id"))
+  | "static_on" => pure (.obstacleOn .stat (← getNat j "id") (← nats j "on"))
+  | "dynamic_on" => pure (.obstacleOn .dyn (← getNat j "id") (← nats j "on"))
   | "lanelet" => pure (.lanelet (← lanelet j))
   | "sign" => pure (.sign (← getNat j "id"))
   | "light" => pure (.light (← getNat j "id"))
@@ -46,6 +48,9 @@ def op (j : Json) : P Op := do
   | "rm_inter_list" => pure (.removeInters (← getList inter j "is"))
   | "replace_net" => pure (.replaceNet (← net (← field j "net")))
   | "gen" => pure .genId
+  | "erase" => pure .eraseNet
+  | "rm_hanging" => pure (.removeHanging (← getList lanelet j "ls"))
+  | "set_refs" => pure (.setRefs (← getNat j "id") (← nats j "signs") (← nats j "lights"))
   | k => throw s!"C09: unknown operation {k}"
 
 def natsJ (l : List Nat) : Json := Json.arr (l.map natJ).toArray
